@@ -428,8 +428,25 @@ def r25d_amount_iter(text, log):
     return text[:mt.start()] + head + text[bo + 1:bc] + "    i__ += 1;\n    " + text[bc:]
 
 
+def r26_forward_ref_op(text, log):
+    """R26: a binding `let [mut] N = ...or_insert(..)/or_default();` is a `&mut Decimal`; `N op= X;` on it forwards to
+    `*N op= X;` (rust_decimal implements OpAssign<Decimal> for &mut Decimal by forwarding).  The binding name is taken
+    from the code, not from the rule."""
+    m = L.mask(text)
+    names = [mt.group(1) for mt in re.finditer(r"\blet\s+(?:mut\s+)?(\w+)\s*=[^;]*\.(?:or_insert\([^;]*\)|or_default\(\))\s*;", m)]
+    if not names:
+        raise Lost("R26: no binding to an entry's value found")
+    n = 0
+    for name in names:
+        text, k = _sub_logged(text, r"(?<![\w*.])" + re.escape(name) + r"(\s*[-+*/]=)", "*" + name + r"\1", "R26-forward-ref-op", log)
+        n += k
+    if n == 0:
+        raise Lost("R26: no `N op= X` on an entry binding")
+    return text
+
+
 STRUCTURAL = {"R11c": r11_closure, "R14": r14_all, "R16m": r16_drop_methods, "R12d": r12_debug_assert, "R5": r5_for_bytes, "R7": r7_mut_self, "R0": r0_named_return, "R4": r4_format, "R12": r12_unreachable,
-              "R6": r6_for_enumerate, "R10": r10_drop_loop, "R25": r25_hashmap_iter_mut, "R25b": r25b_hashmap_into_iter, "R25c": r25c_hashmap_retain, "R25d": r25d_amount_iter}
+              "R6": r6_for_enumerate, "R10": r10_drop_loop, "R25": r25_hashmap_iter_mut, "R25b": r25b_hashmap_into_iter, "R25c": r25c_hashmap_retain, "R25d": r25d_amount_iter, "R26": r26_forward_ref_op}
 
 
 def apply_rewrites(text, rewrites, log):
